@@ -405,3 +405,148 @@ def probe_c12(ctx, pf):
             if errs[0] > 1e-9 and errs[1] > errs[0] / 2.8:
                 ctx.violation(f"c12:{cname}:imp-exp-order", f"{cname}: implicit and explicit steps do not agree to O(dt^2): differences {errs}", L)
     return n
+
+
+# ------------------------------------------------------------------ C10
+COORD_SYSTEM = {"Grid1D": ["x"], "CylindricalGrid1D": ["r"], "SphericalGrid1D": ["r"], "Grid2D": ["x", "y"],
+                "CylindricalGrid2D": ["r", "z"], "PolarGrid2D": ["r", "theta"], "Grid3D": ["x", "y", "z"],
+                "CylindricalGrid3D": ["r", "theta", "z"], "SphericalGrid3D": ["r", "theta", "phi"]}
+ALL_LABELS = ["x", "y", "z", "r", "theta", "phi"]
+
+
+def geometric_volume(cname, fs):
+    f = [np.asarray(x, dtype=float) for x in fs]
+    d0 = np.diff(f[0])
+    r2 = np.diff(f[0] ** 2) / 2.0
+    r3 = np.diff(f[0] ** 3) / 3.0
+    if cname == "Grid1D": return d0
+    if cname == "CylindricalGrid1D": return r2 * 2 * np.pi
+    if cname == "SphericalGrid1D": return r3 * 2.0 * 2 * np.pi
+    d1 = np.diff(f[1])
+    if cname == "Grid2D": return d0[:, None] * d1[None, :]
+    if cname == "CylindricalGrid2D": return (r2 * 2 * np.pi)[:, None] * d1[None, :]
+    if cname == "PolarGrid2D": return r2[:, None] * d1[None, :]
+    d2 = np.diff(f[2])
+    if cname == "Grid3D": return d0[:, None, None] * d1[None, :, None] * d2[None, None, :]
+    if cname == "CylindricalGrid3D": return r2[:, None, None] * d1[None, :, None] * d2[None, None, :]
+    dc = -np.diff(np.cos(f[1]))
+    return r3[:, None, None] * dc[None, :, None] * d2[None, None, :]
+
+
+def probe_c10(ctx, pf):
+    n = 0
+    for rng, cname, fs, mesh in cases(ctx, pf, "c10", reps_q=6, reps_t=40, nmax_q=4, nmax_t=7):
+        V = np.asarray(mesh.cellvolume, dtype=float)
+        G = geometric_volume(cname, fs)
+        n += 3
+        L = lab(cname, fs)
+        if V.shape != G.shape or not np.all(V > 0):
+            ctx.violation(f"c10:{cname}:positive", f"{cname}: cellvolume has wrong shape or non-positive entries", L)
+            continue
+        e = float(np.max(np.abs(V - G) / G))
+        if e > 1e-12:
+            if cname == "SphericalGrid3D":
+                ctx.violation("c10:S3_volume", "SphericalGrid3D.cellvolume uses dtheta/pi instead of (cos th1 - cos th2)/2", dict(L, rel_dev=e))
+            else:
+                ctx.violation(f"c10:{cname}:volume", f"{cname}: cellvolume differs from the geometric cell volume (max rel {e:.3g})", L)
+        # geometry accessors
+        d = len(fs)
+        fc = [mesh.facecenters._x, mesh.facecenters._y, mesh.facecenters._z]
+        cc = [mesh.cellcenters._x, mesh.cellcenters._y, mesh.cellcenters._z]
+        cs = [mesh.cellsize._x, mesh.cellsize._y, mesh.cellsize._z]
+        for a in range(d):
+            f = np.asarray(fs[a], dtype=float)
+            ok = (np.array_equal(fc[a], f) and np.allclose(cc[a], 0.5 * (f[1:] + f[:-1]), rtol=1e-15, atol=0)
+                  and np.allclose(cs[a][1:-1], np.diff(f), rtol=1e-15, atol=0) and cs[a][0] == cs[a][1] and cs[a][-1] == cs[a][-2]
+                  and int(mesh.dims[a]) == len(f) - 1)
+            if not ok:
+                ctx.violation(f"c10:{cname}:axis{a}", f"{cname}: faces / centres / sizes of axis {a} are not as specified", L)
+        # labels: coordinates reachable exactly under the labels of the coordinate system
+        for prop in (mesh.cellcenters, mesh.facecenters, mesh.cellsize):
+            for l in ALL_LABELS:
+                n += 1
+                try:
+                    v = getattr(prop, l); got = "ok"
+                except AttributeError:
+                    got = "AttributeError"
+                except Exception as ex:
+                    got = type(ex).__name__
+                want = "ok" if l in COORD_SYSTEM[cname] else "AttributeError"
+                if got == "ok" and want == "ok":
+                    slot = COORD_SYSTEM[cname].index(l)
+                    if v is not [prop._x, prop._y, prop._z][slot]:
+                        got = "wrong-array"
+                if got != want:
+                    ctx.violation(f"c10:{cname}:label:{l}", f"{cname}: coordinate label '{l}' gives {got}, expected {want}", dict(L, label=l))
+    return n
+
+
+def probe_c01_steps(ctx, pf):
+    """closed systems: domainIntegral() before/after implicit and explicit steps (no-flux walls with zero wall-normal
+    velocity; periodic on non-radial axes with equal end cells)"""
+    n = 0
+    for rng, cname, fs, mesh in cases(ctx, pf, "c01s", reps_q=3, reps_t=15, nmin=2, nmax_q=3, nmax_t=5):
+        d = len(mesh.dims)
+        BC = pf.BoundaryConditions(mesh)   # default: no flux everywhere
+        per_axes = []
+        for ax in range(d):
+            f = np.asarray(fs[ax]); dxs = np.diff(f)
+            if gen.AXKIND[cname][ax] != "rad" and abs(dxs[0] - dxs[-1]) < 1e-14 and rng.random() < 0.5:
+                getattr(BC, SIDES[ax][0]).periodic = True; getattr(BC, SIDES[ax][1]).periodic = True
+                per_axes.append(ax)
+        inner = np.abs(gen.cell_array(rng, mesh))[interior_slices(d)] + 0.25
+        phi = pf.CellVariable(mesh, inner, BC)
+        Da = list(gen.face_arrays(rng, mesh, lo=0.0, hi=2.0)); ua = list(gen.face_arrays(rng, mesh, lo=-1.0, hi=1.0))
+        # zero wall-normal velocity on non-periodic boundaries; periodic: equal velocity on the two end faces
+        for ax in range(d):
+            a = ua[ax]
+            lo = tuple(0 if i == ax else slice(None) for i in range(d)); hi = tuple(-1 if i == ax else slice(None) for i in range(d))
+            if ax in per_axes:
+                a[hi] = a[lo]; Da[ax][hi] = Da[ax][lo]   # the two end faces are one and the same physical face
+            else:
+                a[lo] = 0.0; a[hi] = 0.0
+        D = pf.FaceVariable(mesh, *Da); u = pf.FaceVariable(mesh, *ua)
+        if ax in per_axes:
+            pass
+        L = lab(cname, fs, D=tuple(Da), u=tuple(ua), phi_interior=inner, periodic_axes=per_axes)
+        I0 = phi.domainIntegral()
+        # upwind variant: zero normal velocity also on the periodic end faces (see known finding c01:upwind_periodic)
+        uw = [a.copy() for a in ua]
+        for ax in per_axes:
+            lo = tuple(0 if i == ax else slice(None) for i in range(d)); hi = tuple(-1 if i == ax else slice(None) for i in range(d))
+            uw[ax][lo] = 0.0; uw[ax][hi] = 0.0
+        uW = pf.FaceVariable(mesh, *uw)
+        variants = [("diffusion + central advection", lambda v: [-pf.diffusionTerm(D), pf.convectionTerm(u)],
+                     lambda v: pf.divergenceTerm(fmul(pf, mesh, D, pf.gradientTerm(v))) - pf.divergenceTerm(fmul(pf, mesh, u, pf.linearMean(v)))),
+                    ("diffusion + upwind advection", lambda v: [-pf.diffusionTerm(D), pf.convectionUpwindTerm(uW)],
+                     lambda v: pf.divergenceTerm(fmul(pf, mesh, D, pf.gradientTerm(v))) - pf.divergenceTerm(fmul(pf, mesh, uW, pf.upwindMean(v, uW))))]
+        for vname, mk, mkrhs in variants:
+            with np.errstate(all="ignore"):
+                x = phi.copy()
+                for dt in (0.01, 1.0, 100.0):
+                    pf.solvePDE(x, [pf.transientTerm(x, dt, 1.0)] + mk(x))
+                I1 = x.domainIntegral()
+                y = pf.solveExplicitPDE(phi, 1e-4, mkrhs(phi))
+                I2 = y.domainIntegral()
+            n += 2
+            for what, I in ((f"three implicit solvePDE steps ({vname})", I1), (f"one solveExplicitPDE step ({vname})", I2)):
+                if not abs(I - I0) <= 1e-9 * (abs(I0) + 1e-12):
+                    if cname == "SphericalGrid3D":
+                        ctx.violation("c01:S3_domainIntegral",
+                                      "SphericalGrid3D: domainIntegral() (coded cellvolume) is not conserved by closed systems; the operators conserve the midpoint measure instead",
+                                      dict(L, before=float(I0), after=float(I), what=what))
+                    else:
+                        ctx.violation(f"c01:{cname}:{what}", f"{cname}: domainIntegral changed from {float(I0)!r} to {float(I)!r} over {what} in a closed system",
+                                      dict(L, before=float(I0), after=float(I), what=what, u_upwind_variant=[a.tolist() for a in uw]))
+    # known finding: upwind advection through a periodic boundary is not conservative (inflow boundary faces use the face average)
+    m1 = pf.Grid1D(np.array([0., 1., 2., 3.]))
+    BC = pf.BoundaryConditions(m1); BC.left.periodic = True; BC.right.periodic = True
+    phi = pf.CellVariable(m1, np.array([1.0, 2.0, 4.0]), BC)
+    u1 = pf.FaceVariable(m1, 1.0)
+    I0 = float(phi.domainIntegral())
+    x = phi.copy(); pf.solvePDE(x, [pf.transientTerm(x, 0.5, 1.0), pf.convectionUpwindTerm(u1)])
+    n += 1
+    if abs(float(x.domainIntegral()) - I0) > 1e-9:
+        ctx.violation("c01:upwind_periodic", "upwind advection across a periodic boundary with non-zero normal velocity does not conserve domainIntegral",
+                      {"cls": "Grid1D", "faces": [[0, 1, 2, 3]], "u": 1.0, "phi_interior": [1, 2, 4], "dt": 0.5, "before": I0, "after": float(x.domainIntegral())})
+    return n
